@@ -515,7 +515,8 @@ PROPS["C15"] = {
     "kani": [
         _c15("c15_new_view", "Membership::new / members / peer_addresses", "fresh view: no peers, generation 0, not resolved, invariant holds", None),
         _c15("c15_members_view", "Membership::members / peer_addresses", "on any view: strictly increasing by address, self exactly once with is_self, every other entry a peer, address set == peers + self", "universe: self + 3 peers"),
-        _c15("c15_set_members_step_small", "Membership::set_members", "keys' == non-self incoming addresses; surviving records unchanged field by field; new peers start Unknown; generation' == generation + [set changed]; resolved; error cleared; change log == symmetric difference, Removed before Added, each sorted", "universe: self, self under another spelling, 2 peers; incoming list <= 2 entries (duplicates allowed)"),
+        _c15("c15_set_members_step_tiny", "Membership::set_members", "keys' == non-self incoming addresses; surviving records unchanged field by field; new peers start Unknown; generation' == generation + [set changed]; resolved; error cleared; change log == symmetric difference, Removed before Added, each sorted", "universe: self, self under another spelling, 1 peer; incoming list <= 2 entries (duplicates allowed)"),
+        _c15("c15_set_members_step_small", "Membership::set_members", "keys' == non-self incoming addresses; surviving records unchanged field by field; new peers start Unknown; generation' == generation + [set changed]; resolved; error cleared; change log == symmetric difference, Removed before Added, each sorted", "universe: self, self under another spelling, 2 peers; incoming list <= 2 entries (duplicates allowed)", tier="thorough"),
         _c15("c15_set_members_step", "Membership::set_members", "same contract", "universe: self, self under another spelling, 3 peers (one differs from self only by port); incoming list <= 3 entries", tier="thorough"),
         _c15("c15_record_probe_step", "Membership::record_up / record_down", "member set unchanged; only the probed record changes; generation + 1 exactly when the status crosses Up; unknown address (incl. self) is a no-op", "universe: self + 3 peers"),
         _c15("c15_record_resolve_error_step", "Membership::record_resolve_error", "no member removed, no record changed, generation and resolved unchanged, error recorded", "universe: self + 3 peers"),
